@@ -582,10 +582,44 @@ func (b *Builder) ensureRemotePackage(ctx context.Context, pkgAddr sourceaddrs.R
 		return "", fmt.Errorf("failed to place final package directory: %w", err)
 	}
 
+	// The symlinks were judged while the package still had its temporary
+	// name. A target that leaves the package and re-enters it by that name
+	// can hide the detour behind another link ("top/../.tmp-1/x" where top
+	// is a link to the package root), so each link is resolved once more
+	// now that the name is gone.
+	if err := checkPackageLinks(finalDir); err != nil {
+		os.RemoveAll(finalDir)
+		return "", err
+	}
+
 	// Only now is the package installed: recording it any earlier would make
 	// a later reference to it look like work that had already succeeded.
 	b.remotePackageDirs[pkgAddr] = dirName
 	return dirName, nil
+}
+
+// checkPackageLinks verifies that every symlink in an installed package
+// resolves to something inside that package.
+func checkPackageLinks(root string) error {
+	realRoot, err := filepath.EvalSymlinks(root)
+	if err != nil {
+		return fmt.Errorf("failed to get real path for package directory: %w", err)
+	}
+	return filepath.Walk(root, func(absPath string, info os.FileInfo, err error) error {
+		if err != nil {
+			return err
+		}
+		if info.Mode()&os.ModeSymlink == 0 {
+			return nil
+		}
+		if realPath, err := filepath.EvalSymlinks(absPath); err == nil {
+			if rel, err := filepath.Rel(realRoot, realPath); err == nil && filepath.IsLocal(rel) {
+				return nil
+			}
+		}
+		relPath, _ := filepath.Rel(root, absPath)
+		return fmt.Errorf("module package path %q is symlink traversing out of the package root", relPath)
+	})
 }
 
 // hashPackageDir is dirhash.HashDir with one difference: a symlink to a
